@@ -273,6 +273,7 @@ def _operator_table(P, R):
             n += 1
             good = bool(nonconst)
             desc = []
+            unrec = False
             for r in nonconst:
                 # replace operands by L/R tokens
                 rr = r
@@ -285,13 +286,38 @@ def _operator_table(P, R):
                     if atomv != ORDER[var] or not viaa or not viab:
                         good = False
                 else:
+                    # delegation to another arm: `!Operator::GreaterThan.evaluate(left, right)`
+                    core, negs = rr, 0
+                    while core[0] == "un" and core[1] == "Not":
+                        core = strip(core[2]); negs += 1
+                    dv = None
+                    if core[0] == "call" and core[1] == OP + "::evaluate" and len(core[2]) == 3 and _side(core[2][1]) == "L" and _side(core[2][2]) == "R":
+                        a0 = strip(core[2][0])
+                        t0 = fmt_sym(a0, maxdepth=3)
+                        for cand in ORDER:
+                            if t0.rstrip("{}'").endswith("Operator::" + cand):
+                                dv = cand
                     good = False
-                    desc.append(fmt_sym(rr, maxdepth=5)[:80])
+                    if dv is not None:
+                        rel, pol = ORDER[dv]
+                        if negs % 2 == 1:
+                            desc.append("!(%s) - and a negated arm is TRUE when a conversion is missing, where %s must be false" % (dv, var))
+                        elif (rel, pol) != ORDER[var]:
+                            desc.append("the %s arm (%s is %s)" % (dv, rel, pol))
+                        else:
+                            good = bool(nonconst)
+                    else:
+                        unrec = True
+                        desc.append(fmt_sym(rr, maxdepth=5)[:80])
             if consts - {False}:
                 good = False
+                unrec = False
                 desc.append("constant true on a missing conversion")
             if good:
                 R.hold("c", "Operator::%s == (%s is %s) on to_number(left), to_number(right); false otherwise" % (var, ORDER[var][0], ORDER[var][1]), fn=fn)
+            elif unrec and not any(" < " in d or "negated arm" in d or "arm (" in d for d in desc):
+                # the arm is written in a form the table does not read (adapter closures, delegation to another arm ..): no verdict
+                R.undecide("c", "operator:%s" % var, "Operator::%s is computed as %s, a form the operator table does not reduce to a comparison of to_number(left), to_number(right)" % (var, desc), fn)
             else:
                 R.violate("c", "operator:%s" % var, "Operator::%s computes %s; expected `%s` = %s over to_number(left)/to_number(right), false when a conversion is missing" % (var, desc, ORDER[var][0], ORDER[var][1]), fn)
         elif var in STR:
@@ -345,6 +371,15 @@ def _operator_table(P, R):
                 good = False
             if good:
                 R.hold("c", "Operator::In == right-array.contains(left); false when right is not an array", fn=fn)
+            elif not nonconst and consts == {True, False} and all(
+                    any(isinstance(o, bool) and o is True and strip(c)[0] == "call" and strip(c)[1].endswith("::contains") and len(strip(c)[2]) == 2
+                        and _side(strip(c)[2][0]) == "R" and _side(strip(c)[2][1]) == "L" for c, o in conds)
+                    for conds, ret in arm if ret is not None and strip(ret) == ("const", "bool", True)):
+                R.hold("c", "Operator::In is true exactly under a guard right-array.contains(left)", fn=fn)
+            elif not nonconst and not (consts - {False}):
+                # every row of the arm returns a constant: the membership test sits in a form the rows do not expose (a match
+                # guard / matches! with `if arr.contains(left)`): no verdict rather than a guess
+                R.undecide("c", "operator:In", "the In arm returns only constants on its decision rows (membership test in a match guard?)", fn)
             else:
                 R.violate("c", "operator:In", "Operator::In computes %s; expected right-array.contains(left)" % [fmt_sym(r, maxdepth=5)[:80] for r in nonconst], fn)
         elif var in ("Equal", "NotEqual"):
